@@ -3,6 +3,11 @@ the implementation: the datagrams on the simulated wire, the responses put on ea
 `update_observation_count` calls and cancellation-callback invocations of the test resource.
 
 Shares no code with aiocoap or the Lean model.  `check(res)` returns a list of (key, verdict).
+
+Keys that are recorded as known findings (known_findings.json): `C08:queued-notification-sent-after-end` (a
+notification first transmitted after the end), `C08:notification-retransmitted-after-end` (a notification first
+transmitted before the end, retransmitted after it; never the registration's final notification itself),
+`C08:reset-of-non-confirmable-notification-ignored`.
 """
 import wire as W
 
@@ -46,7 +51,7 @@ def check(res):
     ins = []            # (tick, kind, fields)
     counts = []
     version = 0
-    changes = []        # (tick, version, target sv or None)
+    changes = []        # (tick, version, target sv or None, seq)
     renders = []
     for seq, e in enumerate(log):
         if e[0] == "in":
@@ -54,7 +59,7 @@ def check(res):
             ins.append((tick, ev, seq))
             if ev[0] in ("U", "T"):
                 version += 1
-                changes.append((tick, version, None if ev[0] == "U" else ev[2]))
+                changes.append((tick, version, None if ev[0] == "U" else ev[2], seq))
             continue
         _, text, tick, sv = e
         k, rest = text.split(":", 1)
@@ -68,7 +73,7 @@ def check(res):
             regs[int(s)] = Reg(int(s), int(remote), _parse_wire(w), tick)
             regs[int(s)].seq = seq
         elif k == "c":
-            counts.append((tick, int(rest), sv))
+            counts.append((tick, int(rest), sv, seq))
         elif k == "k":
             regs[int(rest)].callbacks.append(tick)
         elif k == "g":
@@ -95,11 +100,13 @@ def check(res):
                             f"retransmission of message {d['mid']} to observer {d['remote']} differs from its "
                             f"first transmission at tick {d['tick']}"))
             f["tx"].append(d["tick"])
+            f["copies"].append(d)
             d["retx_of"] = f
         elif key in first and d["mtype"] in ("ACK", "RST"):
             d["dup_reply"] = True      # stored reply repeated for a duplicate request
         else:
             d["tx"] = [d["tick"]]
+            d["copies"] = []
             first[key] = d
     firsts = [d for d in sends if "tx" in d]
 
@@ -189,19 +196,42 @@ def check(res):
         if any(b <= a for a, b in zip(wnums, wnums[1:])):
             out.append(("C08:observe-not-increasing-on-wire",
                         f"{who}: Observe values in order of transmission {wnums} are not strictly increasing"))
-        # nothing after the end
+        # nothing after the end.  On the pipe the end is the moment of its cause.  On the wire a registration
+        # that ends by its own final response (no Observe option / not 2.xx) is over once that response has been
+        # transmitted for the first time: what was handed to the message layer before it and leaves before it is
+        # in order for the observer, and further copies of the final response itself are its retransmissions.
+        fem = None
         if r.end is not None:
             te, cause, qe = r.end
+            if cause == "final response":
+                fem = next(em for em in r.emissions if em.get("final") and em["seq"] == qe)
+
+            def wire_after(d):
+                if fem is not None:
+                    return fem["dg"] is not None and d["seq"] > fem["dg"]["seq"]
+                return r.after_end(d["tick"], d["seq"])
+
             for em in r.emissions:
+                d = em["dg"]
                 if r.after_end(em["tick"], em["seq"]):
                     out.append(("C08:notification-after-end",
                                 f"{who} ended at tick {te} ({cause}) but put a response on its pipe at tick {em['tick']}"))
-                elif em["dg"] is not None and r.after_end(em["dg"]["tick"], em["dg"]["seq"]) and \
-                        not (em.get("final") and em["seq"] == qe):
+                elif em is fem or d is None:
+                    continue
+                elif wire_after(d):
                     out.append(("C08:queued-notification-sent-after-end",
                                 f"{who} ended at tick {te} ({cause}); the notification Observe={em['obs']} "
-                                f"mid={em['dg']['mid']} handed to the message layer at tick {em['tick']} was first "
-                                f"transmitted afterwards, at tick {em['dg']['tick']}"))
+                                f"mid={d['mid']} handed to the message layer at tick {em['tick']} was first "
+                                f"transmitted afterwards, at tick {d['tick']}"))
+                else:
+                    # first transmitted while the registration was alive: its retransmissions have to stop with it
+                    late = [x["tick"] for x in d["copies"] if wire_after(x)]
+                    if late:
+                        out.append(("C08:notification-retransmitted-after-end",
+                                    f"{who} ended at tick {te} ({cause}); its confirmable notification Observe="
+                                    f"{em['obs']} mid={d['mid']}, first transmitted at tick {d['tick']} while the "
+                                    f"registration was alive, was retransmitted {len(late)} more time(s) after the "
+                                    f"end, at ticks {late}"))
         if getattr(r, "reset_non", None) is not None:
             tn, qn = r.reset_non
             later = [em for em in r.emissions if em["seq"] > qn]
@@ -215,23 +245,57 @@ def check(res):
             out.append(("C08:callback-count",
                         f"{who} (accepted={r.accepted}, ended={r.end}): cancellation callback ran "
                         f"{len(r.callbacks)} time(s), expected {want}"))
-        # latest state eventually notified
-        if r.accepted and r.end is None and sv not in res["final"]["suspended"] and r.emissions:
-            t0 = r.emissions[0]["tick"]
-            rel = [v for (t, v, target) in changes if t >= t0 and (target is None or target == sv)]
-            outstanding = any(d["mtype"] == "CON" and d["remote"] == r.remote and
-                              not acked_before(r.remote, d["mid"], end_of_run + 1, d["seq"]) for d in firsts)
-            if rel and not outstanding:
+        # latest state eventually notified.  A change concerns the registration from the moment it was accepted
+        # (the resource reported the new count): `updated_state` reaches it, or the trigger names it.
+        acc_seq = min((q for (_, _, s, q) in counts if s == sv), default=None)
+
+        def outstanding():
+            return any(d["mtype"] == "CON" and d["remote"] == r.remote and
+                       not acked_before(r.remote, d["mid"], end_of_run + 1, d["seq"]) for d in firsts)
+
+        if r.accepted and acc_seq is not None and r.end is None and sv not in res["final"]["suspended"] \
+                and r.emissions:
+            rel = [v for (t, v, target, q) in changes if q > acc_seq and (target is None or target == sv)]
+            if rel and not outstanding():
                 best = max((em["body"] for em in r.emissions if em["dg"] is not None and em["obs"] is not None),
                            default=-1)
                 if best < rel[-1]:
                     out.append(("C08:latest-state-not-notified",
                                 f"{who}: the last state change produced version {rel[-1]} but the newest notification "
                                 f"transmitted carries version {best}"))
+        # ... also when the registration ends by a last-marked notification: the observer was told that it is
+        # registered (Observe in the first response), and the 2.xx response without Observe that concludes the
+        # registration is the last thing it will ever get, so that one has to be as new as the last change made
+        # before it was put on the pipe - be it rendered or the message the resource handed to trigger().  (An
+        # unsuccessful final response tells the observer that its view is void; nothing is claimed about it.)
+        if r.accepted and acc_seq is not None and fem is not None and fem is not r.emissions[0] \
+                and r.emissions[0]["obs"] is not None and 64 <= fem["code"] < 96:
+            rel = [v for (t, v, target, q) in changes
+                   if acc_seq < q < fem["seq"] and (target is None or target == sv)]
+            if rel and fem["body"] < rel[-1]:
+                out.append(("C08:final-notification-stale",
+                            f"{who}: ended by a final notification put on the pipe at tick {fem['tick']} that "
+                            f"carries version {fem['body']}, but the last state change before it produced version "
+                            f"{rel[-1]}; the registration is over, so the latest state is never sent"))
+            gone = any(ev[0] == "X" or (ev[0] == "E" and ev[2] == r.remote) for _, ev, q in ins) or \
+                any(rem == r.remote for _, rem in giveups)
+            if fem["dg"] is None and not gone and not outstanding():
+                out.append(("C08:final-notification-not-sent",
+                            f"{who}: the final notification put on the pipe at tick {fem['tick']} was never "
+                            f"transmitted although every confirmable message to the observer was acknowledged"))
+
+        # "the registration ends when ... a notification is ... marked last": a change announced to this
+        # registration with is_last while it was alive has to end it (once the renders involved have returned)
+        if r.accepted and acc_seq is not None and r.end is None and sv not in res["final"]["suspended"] \
+                and sv not in res["script"].get("slow_add", []):
+            marked = [t for (t, ev, q) in ins if ev[0] == "T" and ev[2] == sv and ev[4] and q > acc_seq]
+            if marked:
+                out.append(("C08:last-marked-trigger-did-not-end",
+                            f"{who}: trigger(..., is_last=True) at tick {marked[0]} but the registration never ended"))
 
     # ---- the observer count ------------------------------------------------------------------------------------------
     prev = 0
-    for tick, n, sv in counts:
+    for tick, n, sv, _ in counts:
         if abs(n - prev) != 1:
             out.append(("C08:count-step", f"update_observation_count({n}) after {prev} at tick {tick}"))
         prev = n
